@@ -11,9 +11,29 @@ LEVEL = "proof"
 WORDS = ["ab", "abc", "a", "", "xyz", "hello", "é", "k1", "foo bar", "12"]
 
 
+BOUNDARY_LENGTHS = [15, 16, 17, 31, 32, 33, 63, 64, 65, 127, 128, 129, 255, 256, 257, 511, 512, 1022, 1023, 1024, 1025, 1026, 1500, 2047, 2048,
+                    2049, 4095, 4096, 4097, 5000]
+
+
+def long_word(rng):
+    """a string whose length sits at a boundary a size-dependent creation path could use"""
+    unit = rng.choice(["a", "ab", "xyz", "é", "0123456789"])
+    n = rng.choice(BOUNDARY_LENGTHS)
+    k = max(1, n // len(unit))
+    return unit * k + rng.choice(["", "!", "?z"])
+
+
 def producers(rng, s):
     """Several Laythe expressions that all evaluate to the string `s` (different creation paths)."""
     out = ['"%s"' % s]
+    if len(s) > 12:
+        # built up piecewise by repeated concatenation / interpolation (the "string builder" pattern)
+        step = rng.choice([1, 2, 3, 7, len(s) // 2 or 1])
+        parts = [s[i:i + step] for i in range(0, len(s), step)]
+        if len(parts) <= 64:
+            out.append("(|| { let acc = \"\"; for part in [%s] { acc = acc + part; } return acc; })()" % ", ".join('"%s"' % q for q in parts))
+            out.append("(|| { let acc = \"\"; for part in [%s] { acc = \"${acc}${part}\"; } return acc; })()" % ", ".join('"%s"' % q for q in parts))
+        out.append("[%s].iter().reduce(\"\", |a, x| a + x)" % ", ".join('"%s"' % s[i:i + max(1, len(s) // 3)] for i in range(0, len(s), max(1, len(s) // 3))))
     if len(s) >= 2:
         k = rng.randint(1, len(s) - 1)
         out.append('("%s" + "%s")' % (s[:k], s[k:]))
@@ -34,7 +54,8 @@ def gen_program(rng):
     n = rng.randint(3, 8)
     vals = []
     for i in range(n):
-        s = rng.choice(WORDS)
+        s = rng.choice(WORDS) if rng.random() < 0.75 else (rng.choice([v for v in vals if len(v) > 12]) if rng.random() < 0.5 and any(len(v) > 12 for v in vals)
+                                                          else long_word(rng))
         e = rng.choice(producers(rng, s))
         lines.append("let v%d = %s;" % (i, e))
         vals.append(s)
